@@ -83,7 +83,7 @@ fn do_call(ctx: &mut Context, log: &mut Log, rng: &mut SmallRng, pool: &mut Vec<
             log.build(ctx, e, format!("{}|a={},{}", $op, r(a), r(b)))
         }};
     }
-    let e = match pick % 34 {
+    let e = match pick % 36 {
         0 => { let e = ctx.not(a); log.build(ctx, e, format!("not|w={w}|a={}", r(a))) }
         1 => { let e = ctx.negate(a); log.build(ctx, e, format!("neg|w={w}|a={}", r(a))) }
         2 => bin!(and, "and"), 3 => bin!(or, "or"), 4 => bin!(xor, "xor"), 5 => bin!(add, "add"), 6 => bin!(sub, "sub"), 7 => bin!(mul, "mul"),
@@ -149,6 +149,25 @@ fn do_call(ctx: &mut Context, log: &mut Log, rng: &mut SmallRng, pool: &mut Vec<
             let n = *same_t.choose(rng).unwrap();
             if rng.random_bool(0.5) { let e = ctx.equal(m, n); log.build(ctx, e, format!("arreq|a={},{}", r(m), r(n))) }
             else { let c = *bools.choose(rng).unwrap(); let e = ctx.ite(c, m, n); log.build(ctx, e, format!("arrite|a={},{},{}", r(c), r(m), r(n))) }
+        }
+        32 => {
+            // literals through bit_vec_val (u128 argument) with values across the 64 / 96 / 128-bit boundaries, and zero / one / ones
+            let lw = *[8u32, 64, 65, 96, 97, 100, 127, 128].choose(rng).unwrap();
+            let base: u128 = *[0u128, 1, 5, 0xff].choose(rng).unwrap();
+            let hi: u128 = match rng.random_range(0..6) { 0 => 0, 1 => 1u128 << 63, 2 => 1u128 << 64, 3 => 1u128 << 95, 4 => 1u128 << 96, _ => 1u128 << (rng.random_range(96..128)) };
+            let mask: u128 = if lw >= 128 { u128::MAX } else { (1u128 << lw) - 1 };
+            let v = (base | hi) & mask;
+            let e = match rng.random_range(0..5) {
+                0 => { let e = ctx.zero(lw); log.build(ctx, e, format!("bvlit|w={lw}|bits={}", "0".repeat(lw as usize))); e }
+                1 => { let e = ctx.one(lw); log.build(ctx, e, format!("bvlit|w={lw}|bits={}1", "0".repeat(lw as usize - 1))); e }
+                2 => { let e = ctx.ones(lw); log.build(ctx, e, format!("bvlit|w={lw}|bits={}", "1".repeat(lw as usize))); e }
+                _ => {
+                    let e = if alt { ctx.build(|c| c.bit_vec_val(v, lw)) } else { ctx.bit_vec_val(v, lw) };
+                    let bits: String = (0..lw).rev().map(|i| if (v >> i) & 1 == 1 { '1' } else { '0' }).collect();
+                    log.build(ctx, e, format!("bvlit|w={lw}|bits={bits}"))
+                }
+            };
+            e
         }
         _ => {
             // literal produced by one of several computations
@@ -239,7 +258,7 @@ pub fn run(args: &[String]) {
         }
         let early: Vec<ExprRef> = pool.clone();
         for step in 0..len {
-            let pick = rng.random_range(0..40);
+            let pick = rng.random_range(0..72);
             let alt = rng.random_bool(0.3);
             do_call(&mut ctx, &mut log, &mut rng, &mut pool, pick, alt);
             if step % 50 == 17 {
